@@ -441,6 +441,13 @@ def str_method(I, self, meth, args, kwargs, fr, node):
             if not ctx.decide(ok(s.t), '%s-ok' % meth):
                 I.raise_exc('UnicodeEncodeError' if meth == 'encode' else 'UnicodeDecodeError')
         ctx.trust('assumed: %s(%s) is a function of the text; ascii maps code points < 128 to themselves' % (meth, cname))
+        if lenient and isinstance(errors, VStr) and not z3.is_string_value(z3.simplify(errors.t)):
+            # an error policy chosen at run time: a function of (text, policy) that agrees with the strict one only
+            # for the policy 'strict' (what 'replace' / 'ignore' / ... do to unencodable text is a different result)
+            F2 = z3.Function('%s_%s_errors' % (meth, cname.replace('-', '')), z3.StringSort(), z3.StringSort(), z3.StringSort())
+            r2 = F2(s.t, errors.t)
+            ctx.assume(z3.Implies(errors.t == z3.StringVal('strict'), r2 == F(s.t)))
+            return VStr(r2, out_kind)
         r = F(s.t)
         if cname == 'ascii' and not lenient:
             ctx.assume(r == s.t)
